@@ -48,7 +48,7 @@ idx_st = st.one_of(
     st.fixed_dictionaries({"t": st.just("slice"), "a": st.one_of(st.none(), st.integers(-12, 12)),
                            "b": st.one_of(st.none(), st.integers(-12, 12)),
                            "s": st.sampled_from([None, 1, 2, 3, -1, -2])}),
-    st.fixed_dictionaries({"t": st.sampled_from(["mask_nd", "mask_arr"]),
+    st.fixed_dictionaries({"t": st.sampled_from(["mask_nd", "mask_arr", "mask_list"]),
                            "bits": st.lists(st.booleans(), min_size=40, max_size=40)}),
     st.fixed_dictionaries({"t": st.sampled_from(["ints_nd", "ints_arr", "ints_list", "ints_arr32"]),
                            "ii": st.lists(st.integers(-40, 40), min_size=0, max_size=12),
@@ -82,7 +82,7 @@ op_st = st.one_of(
                           .map(lambda l: [list(x) for x in l])}),
     st.fixed_dictionaries({"op": st.just("sortby_key"), "which": st.integers(0, 10)}),
     st.fixed_dictionaries({"op": st.just("sortby_perm"), "seed": st.integers(0, 10 ** 6),
-                           "as": st.sampled_from(["list", "nd", "repeats"])}),
+                           "as": st.sampled_from(["list", "nd", "repeats", "arr", "arr"])}),
 )
 case_st = st.fixed_dictionaries({
     "n": st.integers(1, 12),
@@ -131,7 +131,7 @@ def _np_index(idx, n):
         return idx["i"] if (idx.get("oob") or n < 1) else ((idx["i"] + n) % (2 * n)) - n
     if t == "slice":
         return slice(idx["a"], idx["b"], idx["s"])
-    if t in ("mask_nd", "mask_arr", "mask_reuse_nd", "mask_reuse_arr"):
+    if t in ("mask_nd", "mask_arr", "mask_list", "mask_reuse_nd", "mask_reuse_arr"):
         return np.array(idx["bits"][:n], dtype=bool)
     if t.startswith("ints"):
         ii = idx["ii"] if (idx.get("oob") or n < 1) else [((i + n) % (2 * n)) - n for i in idx["ii"]]
@@ -161,6 +161,8 @@ def _osy_index(idx, n):
         return osyris.Array(values=ni)
     if t == "ints_list":
         return [int(i) for i in ni]
+    if t == "mask_list":
+        return [bool(b) for b in ni]          # a boolean mask given as a plain python list
     return ni
 
 
@@ -352,6 +354,8 @@ def history(case, r):
                 break
             if idx["t"] not in ("int", "slice", "empty"):
                 n_sel += 1
+            if idx["t"] == "mask_list":
+                r.label("idx_mask_as_list")
             if idx["t"].startswith("mask_reuse"):
                 r.label("mask_object_reused")
             want = {k: {"kind": m["kind"], "unit": m["unit"], "comps": [c[ni] for c in m["comps"]]}
@@ -483,6 +487,9 @@ def history(case, r):
                 perm = rng_p.randint(-cur_n, cur_n, size=cur_n)
                 r.label("sortby_index_repeats")
             key = perm if op["as"] == "nd" else perm.tolist()
+            if op["as"] == "arr":
+                key = osyris.Array(values=perm)       # an index list held in an Array (what np.argsort(member) returns)
+                r.label("sortby_index_Array")
             try:
                 dg.sortby(key)
             except Exception as e:
@@ -509,4 +516,5 @@ def subs(ctx):
     return [Sub("history", history, strategy=case_st, quick=500, thorough=4000,
                 required={"has_vector": 0.3, "has_selection": 0.3, "wrong_shape_insert": 0.1, "sortby_key": 0.1,
                           "idx_ints_valid_len2": 0.2, "idx_ints_negative": 0.15, "idx_ints_repeats": 0.1,
+                          "idx_mask_as_list": 0.05, "sortby_index_Array": 0.05,
                           "wrong_shape_same_rows": 0.08, "constructor_mixed": 0.03})]
